@@ -966,6 +966,165 @@ TWICE_PY = POS_PY + "assert groups(c.fuse(max_qubits={mq})) == groups(c.fuse(max
 
 
 # ---------------------------------------------------------------------------
+# histories: fuse, execute, update parameters through every route, execute again
+
+H1 = [("RX", 1), ("RY", 1), ("RZ", 1), ("U1", 1), ("U3", 3), ("GPI2", 1)]
+H2 = [("fSim", 2), ("CRX", 1), ("CU1", 1), ("RXX", 1), ("GIVENS", 1)]
+HFIX1 = ["H", "X", "T", "S"]
+HFIX2 = ["CNOT", "CZ", "SWAP"]
+
+
+def _rand_unitary(rng, k):
+    d = 2**k
+    a = np.array([[complex(rng.gauss(0, 1), rng.gauss(0, 1)) for _ in range(d)] for _ in range(d)])
+    q, _ = np.linalg.qr(a)
+    return q
+
+
+def _lit(v):
+    if isinstance(v, np.ndarray):
+        return f"np.array({v.tolist()})"
+    return repr(v)
+
+
+def history_script(rng, n, mq, density, rounds):
+    """python source of one history, as a list of (route, [lines]) steps; the same text is
+    executed by the check and stored as the replay."""
+    slots = []  # (template with V[k] or None, k)
+    vals = []
+
+    def new_val(kind):
+        if kind == "matrix1":
+            return _rand_unitary(rng, 1)
+        if kind == "matrix2":
+            return _rand_unitary(rng, 2)
+        if kind == 1:
+            return rng.uniform(-3, 3)
+        return tuple(rng.uniform(-3, 3) for _ in range(kind))
+
+    kinds = []
+    depth = rng.randint(3, 9)
+    while len(slots) < depth or not kinds:
+        r = rng.random()
+        two = n >= 2 and rng.random() < 0.4
+        if r < 0.25:
+            name = rng.choice(HFIX2 if two else HFIX1)
+            qs = rng.sample(range(n), 2 if two else 1)
+            slots.append(f"gates.{name}(*{qs})")
+            continue
+        if r < 0.40:
+            k = 2 if two else 1
+            qs = rng.sample(range(n), k)
+            kind = f"matrix{k}"
+            tmpl = f"gates.Unitary(V[{len(vals)}], *{qs})"
+        else:
+            name, kind = rng.choice(H2 if two else H1)
+            qs = rng.sample(range(n), 2 if two else 1)
+            tmpl = f"gates.{name}(*{qs}, V[{len(vals)}])" if kind == 1 else f"gates.{name}(*{qs}, *V[{len(vals)}])"
+        rest = [q for q in range(n) if q not in qs]
+        if rest and rng.random() < 0.3 and not tmpl.startswith(("gates.CRX", "gates.CU1")):
+            tmpl += f".controlled_by(*{rng.sample(rest, rng.randint(1, min(2, len(rest))))})"
+        slots.append(tmpl)
+        kinds.append(kind)
+        vals.append(new_val(kind))
+    has_matrix = any(isinstance(k, str) for k in kinds)
+    d = 2**n
+    if density:
+        a = np.array([[complex(rng.gauss(0, 1), rng.gauss(0, 1)) for _ in range(d)] for _ in range(d)])
+        init = a @ a.conj().T
+        init = init / np.trace(init)
+    else:
+        init = np.array([complex(rng.gauss(0, 1), rng.gauss(0, 1)) for _ in range(d)])
+        init = init / np.linalg.norm(init)
+    head = ["import numpy as np", "from qibo import Circuit, gates", "from qibo.backends import NumpyBackend", "nb = NumpyBackend()",
+            "def build(V):", f"    c = Circuit({n}, density_matrix={density})"]
+    head += [f"    c.add({t})" for t in slots]
+    head += ["    return c",
+             "def flat(V):", "    return [x for v in V for x in (v if isinstance(v, tuple) else [v])]",
+             f"init = np.array({init.tolist()})",
+             "def check(circ, what):",
+             "    ref = build(V)",
+             "    a = nb.execute_circuit(circ, initial_state=init.copy()).state()",
+             "    b = nb.execute_circuit(ref, initial_state=init.copy()).state()",
+             "    assert np.allclose(a, b, atol=1e-10), (what, 'state', np.abs(a - b).max())",
+             "    assert np.allclose(circ.unitary(nb), ref.unitary(nb), atol=1e-10), (what, 'unitary')",
+             "V = [" + ", ".join(_lit(v) for v in vals) + "]",
+             "c = build(V)",
+             "G = [g for g in c.queue if isinstance(g, gates.ParametrizedGate)]",
+             f"f = c.fuse(max_qubits={mq})",
+             "check(f, 'first execution')"]
+    steps = [("initial", head)]
+    m = len(vals)
+    routes = ["fused-list", "fused-dict", "fused-dict", "orig-list", "orig-dict", "gate-attr", "gate-attr"]
+    if not has_matrix:
+        routes += ["fused-flat", "orig-flat"]
+
+    def update(route, tag):
+        lines = []
+        if route.endswith("list") or route.endswith("flat"):
+            idx = list(range(m))
+        elif route.endswith("dict"):
+            idx = sorted(rng.sample(range(m), rng.randint(1, m)))
+        else:
+            idx = [rng.randrange(m)]
+        for k in idx:
+            lines.append(f"V[{k}] = {_lit(new_val(kinds[k]))}")
+        target = "f" if route.startswith("fused") else "c"
+        if route.endswith("list"):
+            lines.append(f"{target}.set_parameters(list(V))")
+        elif route.endswith("flat"):
+            lines.append(f"{target}.set_parameters(flat(V))" if rng.random() < 0.5 else f"{target}.set_parameters(np.array(flat(V)))")
+        elif route.endswith("dict"):
+            lines.append(f"{target}.set_parameters({{" + ", ".join(f"G[{k}]: V[{k}]" for k in idx) + "})")
+        else:
+            lines.append(f"G[{idx[0]}].parameters = V[{idx[0]}]")
+        lines.append(f"check(f, {tag + ' after ' + route!r})")
+        return lines
+
+    for r in range(rounds):
+        route = rng.choice(routes)
+        steps.append((route, update(route, f"round {r + 1}")))
+    mq2, mq3 = rng.randint(1, n), rng.randint(1, n)
+    steps.append(("fuse-after-update", [f"f2 = c.fuse(max_qubits={mq2})", "check(f2, 'fused after the updates')"]))
+    steps.append(("refuse", [f"ff = f.fuse(max_qubits={mq3})", "check(ff, 're-fused circuit')"]))
+    route = rng.choice(routes)
+    last = update(route, "final round")
+    last += [f"check(f2, 'circuit fused after the first updates, after {route}')", f"check(ff, 're-fused circuit after {route}')",
+             f"check(c, 'original circuit after {route}')"]
+    steps.append((route, last))
+    return steps
+
+
+def fusion_history(ctx):
+    rng = ctx.rng
+    bad = 0
+    nroutes = {}
+    for _ in range(60 if ctx.thorough else 18):
+        n = rng.randint(1, 4)
+        density = rng.random() < 0.3
+        for mq in range(1, n + 1):
+            state = rng.getstate()
+            steps = history_script(rng, n, mq, density, rng.randint(2, 3))
+            if mq < n:
+                rng.setstate(state)  # the SAME circuit and history for every max_qubits
+            ns = {}
+            done = []
+            for route, lines in steps:
+                done += lines
+                ctx.case(("history", n, mq, density, len(done), route, hash("\n".join(lines)) & 0xFFFFFF))
+                ctx.stat(f"history_{route}")
+                try:
+                    exec("\n".join(lines), ns)  # noqa: S102  the text below is the replay
+                except Exception as e:  # noqa: BLE001
+                    bad += 1
+                    ctx.fail(f"fuse:history:{route}", f"history on a fused circuit (n={n}, max_qubits={mq}, density_matrix={density}): after the step '{route}' the fused circuit no longer agrees with a freshly built circuit ({type(e).__name__}: {str(e)[:200]})",
+                             "\n".join(done) + "\n", broken=["C07_search_fuse_history"])
+                    break
+    ctx.ob("C07_search_fuse_history", bad == 0, "search", f"{bad} histories fail" if bad else "")
+
+
+
+# ---------------------------------------------------------------------------
 # light cone
 
 
@@ -1215,7 +1374,7 @@ def run(ctx):
     build_and_audit(ctx, PROP, MODULES, THEOREMS)
     import traceback
 
-    for suite in (fusion_suite, fusion_variants, cone_suite):
+    for suite in (fusion_suite, fusion_variants, fusion_history, cone_suite):
         try:
             suite(ctx)
         except Exception as e:  # noqa: BLE001  the real code behaved in a way the harness cannot digest
